@@ -42,14 +42,14 @@ async fn run_case(throttle: u64, handler_ms: u64, arrivals: Vec<(u64, String, Pr
     let t0_tokio = tokio::time::Instant::from_std(t0);
     let changer = tokio::spawn({ let config = config.clone(); async move { for (off, ms) in changes { tokio::time::sleep_until(t0_tokio + Duration::from_millis(off)).await; config.throttle(Duration::from_millis(ms)); } } });
     // floods (`off:F:ms` items): a task that keeps the event queue supplied with filter-REJECTED events for `ms` milliseconds
-    let flooders: Vec<_> = floods.iter().map(|(off, dur)| { let ev_s = ev_s.clone(); let (off, dur) = (*off, *dur); tokio::spawn(async move {
+    let flooders: Vec<_> = floods.iter().flat_map(|(off, dur)| (0..4).map(move |k| (*off, *dur, k))).map(|(off, dur, k)| { let ev_s = ev_s.clone(); tokio::spawn(async move {
         tokio::time::sleep_until(t0_tokio + Duration::from_millis(off)).await;
         let end = Instant::now() + Duration::from_millis(dur); let mut n = 0u64;
+        // four producers against one consumer and a bounded queue: the queue is never empty while the flood lasts
         while Instant::now() < end {
             n += 1;
-            let ev = Event { tags: vec![Tag::Source(Source::Internal)], metadata: HashMap::from([("id".to_string(), vec![format!("fl{n}")])]) };
+            let ev = Event { tags: vec![Tag::Source(Source::Internal)], metadata: HashMap::from([("id".to_string(), vec![format!("fl{k}_{n}")])]) };
             if ev_s.send(ev, Priority::Normal).await.is_err() { break; }
-            if n % 8 == 0 { tokio::task::yield_now().await; }
         } }) }).collect();
     let flood_ms: u64 = floods.iter().map(|(o, d)| o + d).max().unwrap_or(0);
     let mut sent = vec![];
